@@ -210,6 +210,8 @@ pub struct CheckDef {
     pub stubbed: &'static [&'static str],
     pub assumptions: &'static [&'static str],
     pub exhaustive_quick: bool,
+    /// runs of this check legitimately take seconds (multi-GiB scenarios)
+    pub slow_ok: bool,
 }
 
 pub fn find(id: &str) -> Option<&'static CheckDef> {
@@ -855,11 +857,136 @@ fn c15_eval(_sc: &str, case: &AnyCase, st: &mut RunStats, _t: Tier) -> Vec<Viola
     out
 }
 
+// ================================================================ C10 / C11
+
+fn c10_scen(t: Tier) -> Vec<(&'static str, u64)> {
+    vec![("interleavings", t.pick(200_000, 4_000_000))]
+}
+fn c10_gen(_sc: &str, rng: &mut Rng, t: Tier, _i: u64) -> AnyCase {
+    AnyCase::Frag(gen::gen_frag(rng, &FragKnobs { reject_pct: 12, boundary: false, big: t == Tier::Thorough, long_pct: 3 }))
+}
+fn c10_eval(_sc: &str, case: &AnyCase, st: &mut RunStats, _t: Tier) -> Vec<Violation> {
+    crate::frag::c10_eval(as_frag(case), st)
+}
+fn c11_scen(t: Tier) -> Vec<(&'static str, u64)> {
+    vec![("timeline", t.pick(200_000, 4_000_000))]
+}
+fn c11_gen(_sc: &str, rng: &mut Rng, _t: Tier, _i: u64) -> AnyCase {
+    AnyCase::Frag(gen::gen_frag(rng, &FragKnobs { reject_pct: 4, boundary: false, big: false, long_pct: 5 }))
+}
+fn c11_eval(_sc: &str, case: &AnyCase, st: &mut RunStats, _t: Tier) -> Vec<Violation> {
+    crate::frag::c11_eval(as_frag(case), st)
+}
+
+const STUB_FRAG: &[&str] = &["caller (seeded write/flush/query interleaving)"];
+
+// ================================================================ C12
+
+fn c12_scen(t: Tier) -> Vec<(&'static str, u64)> {
+    vec![("prog-adversarial", t.pick(200_000, 4_000_000)), ("frag-adversarial", t.pick(120_000, 2_500_000)), ("stateless", t.pick(80_000, 1_500_000))]
+}
+fn c12_knobs() -> Knobs {
+    let mut k = Knobs::contract();
+    k.invalid_pct = 35;
+    k.extreme_cfg_pct = 15;
+    k.fault_mode = 2;
+    k.fault_pct = 40;
+    k.after_finish_pct = 50;
+    k.no_finish_pct = 10;
+    k.long_pct = 1;
+    k.no_video_cfg_pct = 3;
+    k.mixed_api_pct = 25;
+    k.enc_api_pct = 25;
+    k
+}
+fn c12_gen(sc: &str, rng: &mut Rng, _t: Tier, _i: u64) -> AnyCase {
+    match sc {
+        "frag-adversarial" => {
+            let mut c = gen::gen_frag(rng, &FragKnobs { reject_pct: 15, boundary: true, big: false, long_pct: 2 });
+            // extremes for every integer argument
+            if rng.chance(1, 4) && !c.cfg.via_builder {
+                c.cfg.timescale = *rng.pick(&[0u32, 1, u32::MAX]);
+            }
+            if rng.chance(1, 3) {
+                let ex = [0u64, 1, (1 << 31) - 1, 1 << 31, (1 << 32) - 1, 1 << 32, (1 << 63) - 1, 1 << 63, (1 << 63) + 1, u64::MAX - 1, u64::MAX];
+                for op in c.ops.iter_mut() {
+                    if let FragOp::Write { pts, dts, .. } = op {
+                        if rng.chance(1, 3) {
+                            *pts = *rng.pick(&ex);
+                        }
+                        if rng.chance(1, 4) {
+                            *dts = *rng.pick(&ex);
+                        }
+                    }
+                }
+            }
+            AnyCase::Frag(c)
+        }
+        "stateless" => AnyCase::Stateless(crate::stateless::gen(rng)),
+        _ => {
+            let k = c12_knobs();
+            let mut c = gen::gen_prog(rng, &k).0;
+            // extremes for metadata and convenience-call arguments
+            if rng.chance(1, 6) {
+                let m = c.cfg.meta.get_or_insert_with(MetaCfg::default);
+                m.ctime = Some(*rng.pick(&[u64::MAX, u64::MAX / 2, 253402300800, 1 << 40, 1 << 50, 86400 * 366 * 400]));
+            }
+            if rng.chance(1, 6) {
+                let m = c.cfg.meta.get_or_insert_with(MetaCfg::default);
+                m.lang = Some(rng.pick(&["", "e", "ENGLISH", "日本語", "\u{0}\u{0}\u{0}", "🎬🎬🎬", "~~~"]).to_string());
+            }
+            if rng.chance(1, 8) {
+                // timestamps that differ by astronomically much
+                let ex = [0.0f64, 1e9, 1.0248e14, 1.03e14, 2.05e14, 1e15, 1e18, 1.7976931348623157e308];
+                for op in c.ops.iter_mut() {
+                    match op {
+                        Op::VideoDts { pts, dts, .. } => {
+                            if rng.chance(1, 3) {
+                                *pts = F(*rng.pick(&ex));
+                            }
+                            if rng.chance(1, 3) {
+                                *dts = F(*rng.pick(&ex));
+                            }
+                        }
+                        Op::Video { pts, .. } | Op::Audio { pts, .. } => {
+                            if rng.chance(1, 4) {
+                                *pts = F(*rng.pick(&ex));
+                            }
+                        }
+                        _ => {}
+                    }
+                }
+            }
+            AnyCase::Prog(c)
+        }
+    }
+}
+fn c12_eval(sc: &str, case: &AnyCase, st: &mut RunStats, _t: Tier) -> Vec<Violation> {
+    match (sc, case) {
+        (_, AnyCase::Stateless(c)) => crate::stateless::eval(c, st),
+        (_, AnyCase::Frag(c)) => {
+            let ex = exec::run_frag(c);
+            st.trace_hash = crate::frag::trace_hash_frag(&ex);
+            st.nontrivial = Some(crate::frag::abstract_frag(c, &ex, st));
+            crate::frag::frag_panics("C12", c, &ex)
+        }
+        (_, AnyCase::Prog(c)) => {
+            let (ex, _lm) = run_and_model(c, st);
+            st.nontrivial = Some(abstract_prog(c, &ex, st));
+            st.evaluations = c.ops.len().max(1) as u64;
+            oracle::panics("C12", c, &ex)
+        }
+        _ => panic!("harness: unexpected case type"),
+    }
+}
+
+const FK_ALL: &[&str] = &["short_write", "interrupted", "err_once", "die", "ok_zero", "die_at_byte", "dead_sink_write"];
+
 // ================================================================ registry
 
 macro_rules! def {
     ($id:expr, $level:expr, $scen:expr, $gen:expr, $eval:expr, $rule:expr, $fk:expr, $stub:expr, $ex:expr) => {
-        CheckDef { id: $id, level: $level, scenarios: $scen, gen: $gen, eval: $eval, rule: $rule, fault_kinds: $fk, real: REAL_LIB, stubbed: $stub, assumptions: ASSUME_READER, exhaustive_quick: $ex }
+        CheckDef { id: $id, level: $level, scenarios: $scen, gen: $gen, eval: $eval, rule: $rule, fault_kinds: $fk, real: REAL_LIB, stubbed: $stub, assumptions: ASSUME_READER, exhaustive_quick: $ex, slow_ok: false }
     };
 }
 
@@ -888,6 +1015,15 @@ pub static ALL: &[CheckDef] = &[
     def!("C09", "exploration", c09_scen, c09_gen, c09_eval,
         "A/V histories with different / non-zero start times and reordered first samples; presentation time of every audio sample relative to the first video sample through stts+ctts+edit list vs submitted difference, tolerance one tick; non-trivial = finished with both tracks non-empty; distinct = distinct abstract trace",
         &[], STUB_PROG, false),
+    def!("C10", "exploration", c10_scen, c10_gen, c10_eval,
+        "seeded sequences over {write_video, flush_segment, ready_to_flush, current_fragment_duration_ms, init_segment}, sample sizes 0..64 KiB, rejected writes, empty flushes, all four codecs via builder and direct FragmentConfig; every segment parsed and every sample located through the run's data offset; queries judged for purity by re-execution without them; non-trivial = at least one segment emitted; distinct = distinct abstract trace (first 40 op kinds/outcomes/size buckets)",
+        &[], STUB_FRAG, false),
+    def!("C11", "exploration", c11_scen, c11_gen, c11_eval,
+        "seeded DTS sequences (constant, variable, equal, non-zero start) under all segmentations incl. single-sample segments and PTS reorderings; trun durations/offsets/flags vs model, tfdt monotone and not before the previous segment's last sample, constant-interval clause, init segment byte-stable; non-trivial = at least one segment emitted; distinct = distinct abstract trace",
+        &[], STUB_FRAG, false),
+    def!("C12", "exploration", c12_scen, c12_gen, c12_eval,
+        "adversarial histories (truncations, bit flips, extremes for every integer/float argument, every object state incl. after failed finish, sink faults of every kind during finish), adversarial fragmented sequences (timescale 0, decode times at 2^31/2^32/2^63/2^64 boundaries) and every stateless public function of codec::*, validation, api value types on adversarial byte strings; every returned error is formatted with {} {:#} {:?}; oracle: no panic (hook + catch_unwind, overflow checks on), no worker death, no watchdog expiry; evaluations = ops executed; non-trivial = every run; distinct = distinct abstract trace",
+        FK_ALL, STUB_PROG, false),
     def!("C15", "exploration", c15_scen, c15_gen, c15_eval,
         "A/V histories with adversarial submission order (all audio last/first, alternation, bursts, equal timestamps); offsets increase within each track, and for non-reordered streams global storage order = stable merge by (tick timestamp, video first); non-trivial = finished with audio and >= 2 video samples; distinct = distinct abstract trace",
         &[], STUB_PROG, false),
